@@ -19,6 +19,7 @@ type vsymConcWorld struct {
 	storeNext int64   // the metadata store's next_offset
 	publishEvents bool // the store update is a scheduling point (C05)
 	checkAtPublish bool
+	s3EventsOnly   bool // producers are preempted only at S3 calls and when they block
 }
 
 func (w *vsymConcWorld) onFlush(ctx context.Context, a *SegmentArtifact) {
@@ -66,7 +67,11 @@ func (w *vsymConcWorld) maxDurableEnd() int64 {
 func (w *vsymConcWorld) producer(i int, prop string) func() {
 	return func() {
 		records := vsymBatch(1, vsym_Bytes("payload", 1))
-		ack, ok := vsymProduceAs(context.Background(), w.l, records, string(rune('A'+i)))
+		name := string(rune('A' + i))
+		if w.s3EventsOnly {
+			name = "~" + name
+		}
+		ack, ok := vsymProduceAs(context.Background(), w.l, records, name)
 		if !ok {
 			vsym_Reach("nack")
 			return
